@@ -27,6 +27,12 @@ func newStringPrefixFilter(code *syntax.Code) StringPrefixFilter {
 		return nil
 	}
 
+	// String entry points start the scan at the candidate the filter returns, which
+	// would move the origin of \G from the requested start position to the candidate.
+	if code.UsesStartAnchor() {
+		return nil
+	}
+
 	opts := code.FindOptimizations
 	minRequiredLength := opts.MinRequiredLength
 
